@@ -315,7 +315,7 @@ func runStreamScenario(s *Scenario) (*failure, caseStats) {
 func TestStreamHTTPFlv(t *testing.T) {
 	evid.Rule(ruleText)
 	evid.Assume("layer C joins are placed between frames (after the tag of frame k has reached every attached consumer), not inside a publish; races between join and publish belong to C01/C02")
-	evid.Checks(250, 5000)
+	evid.Checks(600, 5000)
 	rapid.Check(t, func(t *rapid.T) {
 		codecName := rapid.SampledFrom([]string{"H264", "H265"}).Draw(t, "codec")
 		audio := rapid.Bool().Draw(t, "audio")
